@@ -258,4 +258,5 @@ def structural(ctx):
 def replay(ctx, case):
     if case.get("directed"):
         return structural(ctx)
+    ctx.divert_known_shapes_on_replay = False  # D24 is recorded under this property: its reproducer is judged here
     D.replay_case(ctx, case, judge)
